@@ -273,9 +273,27 @@ class SArr:
         return res
 
     def take(self, index_arr):
-        """a[index_arr] for a 1-D a and an integer index array (IndexError if any index is out of range
-        must be handled by the caller through `take_checked`)."""
-        raise Unsupported("integer-array indexing (use models in the codec contracts)")
+        """a[index_arr] for a 1-D array a and an integer index array: IndexError unless every index
+        lies in [-n, n) (assumed NumPy contract)."""
+        c = ctx()
+        if self.ndim != 1:
+            raise Unsupported("integer-array indexing of a multi-dimensional array")
+        n = self.shape[0]
+        c.trust("a[index_array]: element-wise lookup; IndexError if any index is outside [-n, n)")
+        ok = c.bool("take_all_in_range")
+        w = tuple(c.int("w") for _ in index_arr.shape)
+        ew = index_arr.elem(*w)
+        c.assume(implies(Not(ok), And(index_arr.in_bounds(w), Or(ew < -n, ew >= n))))
+        if not c.interp.truth(ok):
+            raise RaiseSig(IndexError("index out of bounds"))
+        src = self
+
+        def fn(*idx):
+            k = index_arr.elem(*idx)
+            cc = ctx()
+            cc.assume(implies(index_arr.in_bounds(idx), And(k >= -n, k < n)))
+            return src.elem(ite(k < 0, k + n, k) if isinstance(k, SInt) else (k + n if k < 0 else k))
+        return SArr.from_fn(fn, index_arr.shape, self.dtype)
 
     def setitem(self, key, value):
         c = ctx()
